@@ -50,7 +50,7 @@ def cubic_expected(cub, cw, ss, rtt, now):
 
 class C17(Prop):
     id = "C17"
-    props_file = ["Props/C17.v", "Props/C17_Examples.v"]
+    props_file = ["Props/C17.v", "Props/C17_Examples.v", "Props/C17_Bridge.v"]
     coq_imports = ["From ONL Require Import Base.Cmp Tcp.Sender Tcp.Cubic."]
     n_quick = 700
     n_thorough = 12000
@@ -62,6 +62,9 @@ class C17(Prop):
                        "cwnd/ssthresh attributes preset). non-trivial = at least 8 recorded events including a new ACK and at "
                        "least one of: third duplicate, timer expiry, congestion-avoidance ACK; distinct by hash of the case")
     trusted_base = [
+        "vlib/translate.py (Python ast, fail closed; tables in props/tcp_tie.py) regenerates coq/Gen/Extracted_tcpsender.v from "
+        "TCPPacketGenerator.put / timeout_callback of the tree under test before every build; C17_gen_sender_put / _timeout "
+        "(Props/C17_Bridge.v) bridge them to on_ack / on_timer of the hand-written model",
         "the sender is observed through a subclass defined in props/tcp_common.py (generator proxy around run(), instance-level "
         "wrappers of timeout_callback and of the private Store's _trigger_get, recorder as `out`); the full public state is read after every event",
         "correspondence is per transition: the model is stepped from the OBSERVED pre-state and must reproduce the observed "
@@ -78,8 +81,9 @@ class C17(Prop):
     ]
     assumptions = ["mss > 0, flow.size a multiple of the MSS (or None), no arrival_dist/size_dist, flow.start_time None, finish_time infinite",
                    "RTT samples are non-negative (ack.time <= now); initial rtt_estimate > 0"]
-    partial = ["the translated-definition tie covers the CongestionControl / TCPReno / TCPCubic method bodies; the estimator lines and the dupack "
-               "bookkeeping inside TCPPacketGenerator.put() are tied by the correspondence and the monitor only",
+    partial = ["the translated-definition tie covers the CongestionControl / TCPReno / TCPCubic method bodies and TCPPacketGenerator.put / "
+               "timeout_callback (Props/C17_Bridge.v); resend_packet, run() and the loop that stops acknowledged timers (one whitelisted "
+               "statement) are tied by the correspondence and the monitor only",
                "binary64 rounding: theorems are over Q; CUBIC's cnt is compared within 1e-5 (ill-conditioned max_cnt), W_tcp within 1e-9"]
 
     # ---- generation -------------------------------------------------------------------------
@@ -146,6 +150,8 @@ class C17(Prop):
     def pre_build(self):
         from vlib import framework as fw
         T.write_extracted_cc(fw.REPO, fw.VERIF)
+        from props import tcp_tie
+        tcp_tie.write_extracted_tcpsender(fw.REPO, fw.COQ)
 
     # ---- implementation ---------------------------------------------------------------------
     def run_impl(self, case):
